@@ -216,3 +216,45 @@ def c_iter_submodules(P):
         P.prove("never_raises", False, exc=P.resolve_cls(res))
         return
     P.cover("iter_submodules")
+
+
+# --------------------------------------------------------------------------- submodules(): load order
+@contract("C14", "submodules.sort_key", ["_griffe.finder:_module_depth"], floor=1, replay="replay_file_trees")
+def c_module_depth(P):
+    """The sort key of ModuleFinder.submodules is the depth (number of name parts) alone, an integer.  With Python's stable sort this keeps, among entries
+    of equal depth, the enumeration order of iter_submodules -- os.walk lists `pkg/x.py` with pkg's files before it descends into `pkg/x/`, so a sub-package
+    `x/__init__.py` is loaded after a same-named module file `x.py` and wins, as it does for CPython.  A key that also looks at the path reorders them."""
+    from pyvc.api import sym_seq
+    PARTF = z3.Function("NAME_PART", IntS, StrS)
+    parts = sym_seq(P, "name_parts", lambda i: SStr(PARTF(zint(i))), kind="tuple")
+    path = SObj("pathlib.Path", {}, ident=z3.Int("file_id"), frozen=True)
+    r = call(P, "_griffe.finder:_module_depth", (parts, path))
+    is_int = isinstance(r, SInt) or isinstance(r, int)
+    P.prove("the_key_is_an_integer", is_int, note=f"got {type(r).__name__}")
+    if is_int:
+        P.prove("the_key_is_the_number_of_name_parts", zint(r) == zint(parts.len))
+    P.cover("module_depth")
+
+
+def lemmas(tier, seed):
+    import ast as _ast
+    from pyvc.source import SourceIndex
+    idx = SourceIndex()
+    idx.load_all()
+    out = []
+    try:
+        mi, node, cls = idx.find_function("_griffe.finder:ModuleFinder.submodules")
+    except Exception:  # noqa: BLE001
+        node = None
+    ok, detail = False, "ModuleFinder.submodules not found"
+    if node is not None:
+        rets = [n for n in _ast.walk(node) if isinstance(n, _ast.Return) and n.value is not None]
+        detail = "submodules does not end in a single `return sorted(..., key=_module_depth)`"
+        if len(rets) == 1 and isinstance(rets[0].value, _ast.Call) and isinstance(rets[0].value.func, _ast.Name) and rets[0].value.func.id == "sorted":
+            kws = {k.arg: k.value for k in rets[0].value.keywords}
+            ok = set(kws) == {"key"} and isinstance(kws["key"], _ast.Name) and kws["key"].id == "_module_depth"
+            detail = ("submodules returns sorted(<enumeration>, key=_module_depth) with no reverse flag: a stable sort by the key proved in submodules.sort_key"
+                      if ok else f"sorted() is called with {sorted(kws)}: the ordering argument must be revisited")
+    # a side condition of the proof decomposition (where the proved key is used), not a clause of the property: another shape is undecided
+    out.append({"name": "submodules_sorts_by_the_proved_key_only", "ok": ok, "on_fail": "undecided", "detail": detail})
+    return out
